@@ -1,4 +1,5 @@
 import PK.Properties.C02
+import PK.Properties.C02Rules
 #print axioms PK.maxOrNone_ge
 #print axioms PK.C02_eligible
 #print axioms PK.C02_winners_best
@@ -7,3 +8,4 @@ import PK.Properties.C02
 #print axioms PK.C02_lone
 #print axioms PK.pots_sum
 #print axioms PK.pushChips_ledger
+#print axioms PK.C02_best_five_wins
